@@ -190,6 +190,13 @@ func caretRule(p *load.Program, s *oblig.Set) {
 			}
 			return nil, false
 		}
+		// counting loops of the function (a caret line built character by
+		// character) are evaluated at one symbolic position
+		loops := &absint.LoopSym{Fn: fn, In: func(f *ssa.Function) bool {
+			return f != nil && f.Pkg != nil && f.Pkg == fn.Pkg
+		}, Facts: base}
+		in.Hooks.Instr = loops.OnInstr
+		in.Hooks.Branch = loops.OnBranch
 		_, end := in.Run(fn, []absint.Val{absint.NewVar("ERR", fn.Params[0].Type()), line})
 		if end != nil && end.Kind != "panic" {
 			s.Unk("P12", "node.reportError / path", pos, "could not be evaluated: "+end.Error())
